@@ -228,18 +228,20 @@ class DisciplineOracle(Oracle):
                 self.avail.remove(xi)
             if self.nt_cancel_armed or self.lifo_pending_arrival:
                 self.res.nontrivial = True
-        elif k == "cg" and outcome["status"] == "ok" and outcome.get("was") == "granted":
-            t = outcome["tok"]
-            self.seq += 1
-            self.cancelled_granted = True
-            for b, r in self.worlds:
-                x = b.pop(t.id, None)
-                if x is not None:
-                    r[x] = self.seq
-            nb = len(self.worlds[0][0]) if self.worlds else 0
-            if len(self.avail) - 1 >= 2:
-                self.nt_cancel_armed = True
         self.observe(h)
+
+    def on_cancel(self, h, t, was):
+        """called right after the cancel call returned, before any grant it caused is reported"""
+        if self.dead or t.side != "g" or was != "granted":
+            return
+        self.seq += 1
+        self.cancelled_granted = True
+        for b, r in self.worlds:
+            x = b.pop(t.id, None)
+            if x is not None:
+                r[x] = self.seq
+        if len(self.avail) - 1 >= 2:
+            self.nt_cancel_armed = True
 
     def after_kernel_event(self, h):
         self.observe(h)
